@@ -18,6 +18,10 @@ DEFAULT_MEM = 2 * 1024 ** 3
 
 def _child(fn, arg, wfd, mem, cpu):
     try:
+        os.setpgid(0, 0)        # a process group of its own: whatever the call starts (worker processes) dies with it
+    except OSError:
+        pass
+    try:
         if mem:
             resource.setrlimit(resource.RLIMIT_AS, (mem, mem))
         if cpu:
@@ -36,6 +40,14 @@ def _child(fn, arg, wfd, mem, cpu):
             w.write(data)
     finally:
         os._exit(0)
+
+
+def _killgroup(pid):
+    """kill what is left of a child's process group (worker processes the call started and did not reap)"""
+    try:
+        os.killpg(pid, signal.SIGKILL)
+    except (ProcessLookupError, PermissionError, OSError):
+        pass
 
 
 def pmap(fn, items, workers=None, timeout=20.0, mem=DEFAULT_MEM):
@@ -77,6 +89,7 @@ def pmap(fn, items, workers=None, timeout=20.0, mem=DEFAULT_MEM):
             os.close(rfd)
             del running[rfd]
             _, status = os.waitpid(pid, 0)
+            _killgroup(pid)
             blob = b"".join(chunks)
             if blob:
                 try:
@@ -93,6 +106,7 @@ def pmap(fn, items, workers=None, timeout=20.0, mem=DEFAULT_MEM):
         for rfd in list(running):
             idx, pid, deadline, chunks = running[rfd]
             if now > deadline:
+                _killgroup(pid)
                 try:
                     os.kill(pid, signal.SIGKILL)
                 except ProcessLookupError:
